@@ -151,7 +151,8 @@ class StateGraphMonitor(Monitor):
         if state in MASTER_DRIVEN:
             self.count('master_driven_entries')
             if not master:
-                self.violate(f'C02/no-master:{state}', f'{inst.nick} entered {state} without a Master at vt={vt(w)}')
+                self.violate(f'C02/no-master:{state}{self.local_shutdown(state)}',
+                             f'{inst.nick} entered {state} (from {prev}) without a Master at vt={vt(w)}')
             elif payload['instance_states'].get(master) != 'RUNNING':
                 self.violate(f'C02/master-not-running:{state}',
                              f'{inst.nick} entered {state} with Master {master} seen '
@@ -165,12 +166,21 @@ class StateGraphMonitor(Monitor):
                     # the Master may have crashed and restarted meanwhile: look at its previous incarnation too
                     prev_key = (mnick, mkey[1] - 1)
                     if not (minst and not minst.alive) and state not in self.entered.get(prev_key, ()):
-                        self.violate(f'C02/slave-before-master:{state}',
+                        self.violate(f'C02/slave-before-master:{state}{self.local_shutdown(state)}',
                                      f'{inst.nick} entered {state} at vt={vt(w)} although its Master {mnick} has '
                                      f'never published it (Master published {sorted(self.entered.get(mkey, ()))})')
 
+    def local_shutdown(self, state):
+        """ Mechanism qualifier: SHUTTING_DOWN entered in a run where supvisors_failure_strategy=SHUTDOWN is
+        effective (each instance then decides on its own) and no user shutdown was requested. """
+        from vsim.gen import effective_options
+        run = self.run
+        if state == 'SHUTTING_DOWN' and effective_options(run.scenario['options'])['failure'] == 'SHUTDOWN' \
+                and not any(d['kind_eff'] == 'user_shutdown' for d in run.disturbances):
+            return '/failure-strategy-SHUTDOWN'
+        return ''
+
     def finish(self, run):
-        self.counters['distinct_transitions'] = 0  # filled through signature
         return self.violations
 
 
@@ -299,14 +309,22 @@ class ProgressMonitor(Monitor):
             ok, reason = operational(w, comp, vws, user_conciliation=user)
             if not ok:
                 states = {n: vws[n]['state'] for n in comp}
-                parked = sorted({s for s in states.values() if s not in ('OPERATION',)})
                 refused = self.refusals(run, comp)
                 ok_m, mnick, _ = master_agreement(w, comp, vws)
-                mstate = vws[mnick]['state'] if ok_m else 'none'
-                key = 'C08/parked:' + ('refused:' + refused if refused
-                                       else ('+'.join(parked) or 'jobs') + '/master=' + mstate)
-                self.violate(key, f'group {comp} not back in OPERATION {2 * run.script["k_ticks"]} ticks after the '
-                             f'last disturbance: {reason}; states={states} masters='
+                allowed = ('OPERATION', 'CONCILIATION') if user else ('OPERATION',)
+                if not ok_m:
+                    key = 'no-master-agreement:' + '+'.join(sorted(set(states.values())))
+                elif vws[mnick]['state'] not in allowed:
+                    key = 'master-parked:' + vws[mnick]['state']
+                elif any(s != vws[mnick]['state'] for s in states.values()):
+                    behind = sorted({s for n, s in states.items() if s != vws[mnick]['state']})
+                    key = 'slave-behind:' + '+'.join(behind) + '/master=' + vws[mnick]['state']
+                else:
+                    key = 'jobs-pending'
+                if refused:
+                    key += '/refused:' + refused
+                self.violate('C08/' + key, f'group {comp} not back in OPERATION {2 * run.script["k_ticks"]} ticks '
+                             f'after the last disturbance: {reason}; states={states} masters='
                              f'{ {n: w.by_identifier.get(vws[n]["master"]) for n in comp} }'
                              f'{" refused transition " + refused if refused else ""}', case=run.describe())
         return self.violations
